@@ -75,6 +75,8 @@ def cases(draw, tier, mode):
     # the cube under test may have a past: an earlier pooled evaluation that the caller's check_interrupt callback
     # aborted at its k-th consultation (the caller caught the exception and carries on with the same cube)
     case["prior_interrupt"] = draw(st.sampled_from([None, None, None, 0, 1, 2, 5]))
+    # ... or an earlier COMPLETE pooled evaluation followed by an in-place edit of one of its index dimensions
+    case["edited"] = draw(st.integers(0, 5)) == 0
     if mode == "det":
         prio = draw(st.permutations(list(range(16))))
         which = draw(st.integers(0, 4))
@@ -231,6 +233,25 @@ def give_it_a_past(cube, funcs, k, poolsize):
     return seen[0] > k
 
 
+def edit_in_place(cube, case):
+    """Move one row of a multi-column index dimension from one listed category to another one listed in the same
+    column (iindex.update): shape, common value and number of entries stay what they were."""
+    import numpy
+
+    for ix in getattr(cube, "dims", []):
+        if not hasattr(ix, "update") or len(ix.shape) < 2:
+            continue
+        by_col = {}
+        for k in sorted(ix.keys()):
+            by_col.setdefault(k[1:], []).append(k)
+        for col, keys in sorted(by_col.items()):
+            if len(keys) >= 2 and len(ix[keys[0]]) >= 2:
+                row = int(ix[keys[0]][0])
+                ix.update({keys[1]: numpy.array([row], dtype=numpy.uint32)})
+                return True
+    return False
+
+
 def bits(res):
     import numpy
 
@@ -249,8 +270,21 @@ def check(case, rec):
     sched = case["schedule"]
     with warnings.catch_warnings():
         warnings.simplefilter("ignore")
+        edited_cube = None
+        if case.get("edited") and kind == "ccube":
+            with libcall(what + " pooled, then an in-place edit of a dimension"):
+                edited_cube, L0 = fresh()
+                edited_cube.parallel = True
+                edited_cube.poolsize = case["poolsize"]
+                edited_cube.calculate(L0)
+                build.reap_real_pools()
+                if not edit_in_place(edited_cube, case):
+                    edited_cube = None
         with libcall(what + " serial"):
             cube, L = fresh()
+            if edited_cube is not None:
+                cube = edited_cube  # the reference is the serial evaluation of the SAME (edited) cube object
+                rec.note("cube evaluated pooled before an in-place edit of a dimension")
             cube.parallel = False
             serial = [bits(r) for r in cube.calculate(L)]
         if getattr(cube, "scaffold_size", 3) <= 2:
@@ -262,6 +296,8 @@ def check(case, rec):
                 for rep in range(sched["reps"]):
                     with libcall(what + " pooled (real threads)"):
                         cube, L = fresh()
+                        if edited_cube is not None:
+                            cube = edited_cube
                         if case.get("prior_interrupt") is not None and rep == 0:
                             _, L0 = fresh()
                             if give_it_a_past(cube, L0, case["prior_interrupt"], case["poolsize"]):
@@ -288,6 +324,8 @@ def check(case, rec):
 
         with libcall(what + " pooled (DetPool)"):
             cube, L = fresh()
+            if edited_cube is not None:
+                cube = edited_cube
             if case.get("prior_interrupt") is not None:
                 _, L0 = fresh()
                 if give_it_a_past(cube, L0, case["prior_interrupt"], case["poolsize"]):
